@@ -470,3 +470,40 @@ pub fn gen_exec(rng: &mut Rng, tl_in_batch: bool) -> Vec<Reg> {
     let mut g = Gen { rng, next_tag: 0 };
     g.level(&p, 0, n)
 }
+
+// ---------------------------------------------------------------------------------------
+// C19: metamorphic variants
+
+/// make a program relabel-able: dynamic systems only, controllers without declared data
+pub fn normalise_for_meta(rs: &mut [Reg]) {
+    for r in rs.iter_mut() {
+        match r {
+            Reg::Sys { kind, .. } => *kind = SysKind::Dynamic,
+            Reg::Batch { ctl, creads, cwrites, inner, .. } => { ctl.menu = 0; creads.clear(); cwrites.clear(); normalise_for_meta(inner); }
+            _ => {}
+        }
+    }
+}
+
+fn scramble(rng: &mut Rng, v: &[u32], a: u32, b: u32) -> Vec<u32> {
+    // injective relabelling r -> a*r + b, then a random permutation with some duplicated entries
+    let mut out: Vec<u32> = v.iter().map(|r| a * r + b).collect();
+    for i in (1..out.len()).rev() { let j = rng.below(i as u64 + 1) as usize; out.swap(i, j); }
+    if !out.is_empty() && rng.chance(1, 3) { let x = out[rng.below(out.len() as u64) as usize]; let pos = rng.below(out.len() as u64 + 1) as usize; out.insert(pos, x); }
+    out
+}
+fn rename(n: &str) -> String { if n.is_empty() { String::new() } else { format!("v/{} -", n) } }
+
+/// same registration sequence: systems renamed, resources relabelled injectively, access lists permuted / with duplicates
+pub fn meta_variant(rng: &mut Rng, rs: &[Reg], a: u32, b: u32) -> Vec<Reg> {
+    rs.iter().map(|r| match r {
+        Reg::Sys { tag, name, deps, reads, writes, time, kind } => Reg::Sys {
+            tag: *tag, name: rename(name), deps: deps.iter().map(|d| rename(d)).collect(),
+            reads: scramble(rng, reads, a, b), writes: scramble(rng, writes, a, b), time: *time, kind: *kind },
+        Reg::Batch { tag, name, deps, creads, cwrites, time, count, ctl, inner } => Reg::Batch {
+            tag: *tag, name: rename(name), deps: deps.iter().map(|d| rename(d)).collect(),
+            creads: creads.clone(), cwrites: cwrites.clone(), time: *time, count: *count, ctl: *ctl, inner: meta_variant(rng, inner, a, b) },
+        Reg::Tl { tag, reads, writes } => Reg::Tl { tag: *tag, reads: scramble(rng, reads, a, b), writes: scramble(rng, writes, a, b) },
+        Reg::Barrier => Reg::Barrier,
+    }).collect()
+}
